@@ -53,6 +53,7 @@ inductive KaSt where
 
 def KaSt.apply : KaSt → KaMsg → Option KaSt
   | .client _, .keepAlive c => some (.server c)
+  | .client _, .done => some .done
   | .client _, _ => none
   | .server _, .response c => some (.client (some c))
   | .server _, _ => none
@@ -74,6 +75,7 @@ inductive PsSt where
 
 def PsSt.apply : PsSt → PsMsg → Option PsSt
   | .idle _, .shareRequest n => some (.busy n)
+  | .idle _, .done => some .done
   | .idle _, _ => none
   | .busy _, .sharePeers ps => some (.idle (some ps))
   | .busy _, _ => none
@@ -173,7 +175,7 @@ def CsSt.drain : CsSt → Option CsData × CsSt
 
 inductive TxMsg where
   | init
-  | requestTxIds
+  | requestTxIds (blocking : Bool)
   | replyTxIds
   | requestTxs
   | replyTxs (n : Nat)          -- number of transaction bodies carried
@@ -192,12 +194,14 @@ inductive TxSt where
 def TxSt.apply : TxSt → TxMsg → Option TxSt
   | .init, .init => some .idle
   | .init, _ => none
-  | .idle, .requestTxIds => some .txIdsBlocking
+  | .idle, .requestTxIds true => some .txIdsBlocking
+  | .idle, .requestTxIds false => some .txIdsNonBlocking
   | .idle, .requestTxs => some (.txs 0)
   | .idle, _ => none
-  | .txIdsNonBlocking, .replyTxIds => some .txIdsNonBlocking
+  | .txIdsNonBlocking, .replyTxIds => some .idle
   | .txIdsNonBlocking, _ => none
-  | .txIdsBlocking, .replyTxIds => some .txIdsBlocking
+  | .txIdsBlocking, .replyTxIds => some .idle
+  | .txIdsBlocking, .done => some .done
   | .txIdsBlocking, _ => none
   | .txs _, .replyTxs n => some (.txs n)
   | .txs _, _ => none
